@@ -367,7 +367,7 @@ def barrier_cases(ctx):
                 tests[first_test[order[rank]]]["body"]["waitForTest"] = first_test[order[n + rank - 1]]
         d = os.path.join(ctx.tmp, "bar%03d" % i)
         worlds.materialize(w, d)
-        obs = worlds.run_real(w, dict(c.opts, _timeout=100), d)
+        obs = worlds.run_real(w, dict(c.opts, _timeout=170), d)
         shutil.rmtree(d, ignore_errors=True)
         ctx.count(("barrier", i, n), nontrivial=True, sample=None)
         ctx.bump("real-children-barrier")
@@ -376,7 +376,7 @@ def barrier_cases(ctx):
         if obs.timeout or bad or not waited:
             ctx.violation("-j %d, %d layers: the test t%s waits for a test of a layer that needs the slot freed by the first "
                           "layer - it %s (run order %r)" % (n, len(order), bad[0]["t"] if bad else "?",
-                                                            "never started within 25 s" if bad else "did not report (timeout %r)" % obs.timeout,
+                                                            "never started within 45 s" if bad else "did not report (timeout %r)" % obs.timeout,
                                                             [worlds.layer_name(w, li) for li in order]),
                           {"world": w, "opts": c.opts, "waited": waited}, signature="C06:slot-not-refilled")
 
